@@ -180,9 +180,10 @@ pub fn run(scn: &Value) -> Value {
         let mut rd = &raw[..];
         let res = match req.read(&mut rd).await { Ok(Some(())) => req.handle(&router).await, Ok(None) => panic!("harness: request not read"), Err(e) => e };
         let declared = v::declared_size(&res);
-        let mut out = Vec::new();
-        v::send(res, &mut out).await;
-        (out, declared)
+        // the connection takes everything at once, or only a few bytes per write call (a nearly full socket buffer)
+        let mut w = util::ShortWriter::new([0usize, 1, 7, 64, 1000][(seed % 5) as usize]);
+        v::send(res, &mut w).await;
+        (w.out, declared)
     });
     let p = util::parse_response(&out, method == "HEAD");
     let head_len = util::find(&out, b"\r\n\r\n").map(|i| i + 4).unwrap_or(out.len());
